@@ -25,6 +25,7 @@ func init() {
 			{ID: "C10-R10", Doc: "no integer division on the sort/merge path can divide by zero", Run: c10r10},
 			{ID: "C10-R11", Doc: "frames on which a reader compares or hashes keys take their key prefix from the reader's own type, never from the caller's destination frame", Run: c10r11},
 			{ID: "C10-R12", Doc: "a loop over the input readers visits every reader (no break, no success return inside it)", Run: c10r12},
+			{ID: "C11-R10", Doc: "comparison and hashing cover every key column, so keys equal for the hash are equal for the order (shared)", Run: c11r10},
 			{ID: "C17-R9", Doc: "a pump loop ends exactly at end-of-stream (shared)", Run: c17r9},
 			{ID: "C01-R3", Doc: "operator row loops visit every row read exactly once, at its own index, and write it at the next free output row (shared)", Run: c01r3},
 			{ID: "C17-R7", Doc: "no compound nil/end-of-stream test is constant (shared)", Run: c17r7},
